@@ -7,6 +7,7 @@ import SteelVerif.C09.Props
 import SteelVerif.C10.Props
 import SteelVerif.C11.Props
 import SteelVerif.C11.GenSound
+import SteelVerif.C12.Props
 import SteelVerif.C14.Props
 import SteelVerif.C19.Props
 import SteelVerif.C20.Props
